@@ -155,7 +155,23 @@ class ElectronRepulsionIntegral(BaseFourIndexSymmetric):
         if not isinstance(cont_four, GeneralizedContractionShell):
             raise TypeError("`cont_four` must be a `GeneralizedContractionShell` instance.")
 
-        # TODO: we can probably swap the contractions to get the optimal time or memory usage
+        # The electron transfer recursion moves angular momentum from the first to the second pair of
+        # contractions; every step multiplies the rounding error by (about) the ratio of the sums of
+        # exponents of the first and second pairs. Since (ab|cd) = (cd|ab), the integrals are computed
+        # in the orientation in which this amplification is smaller, e.g. (ff|ss) rather than (ss|ff)
+        # for tight s functions and diffuse f functions.
+        exps_sum_one = cont_one.exps[:, None] + cont_two.exps[None, :]
+        exps_sum_two = cont_three.exps[:, None] + cont_four.exps[None, :]
+        amplification = (cont_three.angmom + cont_four.angmom) * np.log(
+            max(np.max(exps_sum_one) / np.min(exps_sum_two), 1.0)
+        )
+        amplification_swapped = (cont_one.angmom + cont_two.angmom) * np.log(
+            max(np.max(exps_sum_two) / np.min(exps_sum_one), 1.0)
+        )
+        swap_pairs = amplification_swapped < amplification
+        if swap_pairs:
+            cont_one, cont_two, cont_three, cont_four = cont_three, cont_four, cont_one, cont_two
+
         if cont_one.angmom == cont_two.angmom == cont_three.angmom == cont_four.angmom == 0:
             integrals = _compute_two_elec_integrals_angmom_zero(
                 cls.boys_func,
@@ -198,7 +214,9 @@ class ElectronRepulsionIntegral(BaseFourIndexSymmetric):
             )
         integrals = np.transpose(integrals, (4, 0, 5, 1, 6, 2, 7, 3))
 
-        # TODO: if we swap the contractions, we need to unswap them here
+        # undo the swap of the pairs: (cd|ab) -> (ab|cd)
+        if swap_pairs:
+            integrals = np.transpose(integrals, (4, 5, 6, 7, 0, 1, 2, 3))
 
         return integrals
 
